@@ -1,5 +1,6 @@
 import Cdecao.Model.Cdedb
 import Cdecao.Reader.Spec
+import Cdecao.Proofs.LastIdx
 /-! # Proofs about the CdE export reader `CD.read` (properties C12, C13)
 
 Core only (no Mathlib). Sections, in file order:
@@ -1521,27 +1522,16 @@ theorem courseParses_split (trackId : Nat) (o : Opts) (kv : String × J)
 
 theorem courseIndex_ne_none_iff (co : CoursesOut) (id : Nat) :
     courseIndex co id ≠ none ↔ id ∈ co.skipped ∨ ∃ c ∈ co.courses, c.dbid = id := by
-  unfold courseIndex
-  by_cases hs : co.skipped.contains id = true
-  · simp only [hs, if_true]
-    simp only [List.contains_iff_mem] at hs
-    simp [hs]
-  · simp only [hs]
-    have hs' : id ∉ co.skipped := by simpa using hs
-    cases hf : co.courses.findIdx? (fun c => c.dbid == id) with
-    | none =>
-      rw [List.findIdx?_eq_none_iff] at hf
-      simp only [Bool.false_eq_true, if_false, ne_eq, not_true_eq_false, false_iff, not_or, not_exists, not_and]
-      refine ⟨hs', ?_⟩
-      intro c hc he
-      have := hf c hc
-      simp [he] at this
-    | some i =>
-      simp only [Bool.false_eq_true, if_false, ne_eq, reduceCtorEq, not_false_eq_true, true_iff]
-      right
-      have := List.findIdx?_eq_some_iff_getElem.1 hf
-      obtain ⟨hi, hp, _⟩ := this
-      exact ⟨co.courses[i], List.getElem_mem hi, by simpa using hp⟩
+  rw [ne_eq, courseIndex_eq_none_iff]
+  constructor
+  · intro h
+    by_cases hs : id ∈ co.skipped
+    · exact Or.inl hs
+    · right
+      exact Classical.byContradiction fun hc => h ⟨hs, fun c hc' he => hc ⟨c, hc', he⟩⟩
+  · rintro (hs | ⟨c, hc, he⟩) ⟨h1, h2⟩
+    · exact h1 hs
+    · exact h2 c hc he
 
 /-- **known ids.** After a successful `readCourses`, the ids `courseIndex` knows are exactly the
     keys of the export's `courses` object. -/
